@@ -193,6 +193,9 @@ class Parser:
         self._op_code.
         """
         if action_token is TokenTypes.STAGE:
+            if self._current_token.is_a(TokenTypes.BEGIN):
+                return self.token_error(
+                    'Expected rows or columns after "stage", got "{}"')
             if not MatrixParser(self).operand_list():
                 return False
             self._add_instruction(OpCode.COLOR)
